@@ -25,7 +25,9 @@ def closed_expr(rng, d=0):
     if k < 40:
         return '0x%x' % rng.below(1 << rng.choice([4, 8, 12]))
     if k < 52:
-        return '(%s %s %s)' % (closed_expr(rng, d + 1), rng.choice(['+', '+', '*', '-', '&', '|', '^', '<<']), closed_expr(rng, d + 1) if True else '')
+        op = rng.choice(['+', '+', '*', '-', '&', '|', '^', '<<'])
+        # shift amounts stay small: magnitudes belong to C19, and the extracted model computes with unary-free but unbounded integers
+        return '(%s %s %s)' % (closed_expr(rng, d + 1), op, str(rng.below(12)) if op == '<<' else closed_expr(rng, d + 1))
     if k < 60:
         return '0x%02x @ 0x%x' % (rng.below(256), rng.below(16))
     if k < 67:
